@@ -130,6 +130,11 @@ class Site:
             cur = nxt
 
     # ---- the wiki's own (trivial) template language ------------------------------------
+    unresolvable = "link"  # what {{:Page}} gives for a missing page / dead or circular redirect
+
+    def _unresolvable(self, t):
+        return f"[[:{t}]]" if self.unresolvable == "link" else ""
+
     def expand(self, text, depth=0, stack=()):
         if depth > 12:
             return text
@@ -140,7 +145,7 @@ class Site:
                 t = self.norm(name[1:])
                 final, _ = self.resolve(t)
                 if final is None or self.current_text(final) is None:
-                    return f"[[:{t}]]"
+                    return self._unresolvable(t)
                 body = self.current_text(final)
                 key = final
             else:
@@ -416,6 +421,7 @@ class World:
         farm = bool(spec.get("farm"))
         shared_base = f"http://{LOCAL_HOST}/commons/" if farm else f"http://{COMMONS_HOST}/wiki/"
         self.local = Site(LOCAL_HOST, lang, pages, local_imgs, shared_imgs, shared_article_base=shared_base)
+        self.local.unresolvable = spec.get("unresolvable", "link")
         cpages = {}
         for n, r in shared_imgs.items():
             cpages[f"File:{n}"] = {"revs": [[r["descrev"], r["desc"]]], "users": r.get("users", []), "anon": r.get("anon", 0)}
@@ -521,7 +527,7 @@ def gen_spec(rng, size="small"):
     n_img = rng.randint(0, 6)
     images = {}
     for i in range(n_img):
-        name = f"{rng.choice(['Pic', 'Map', 'Photo', 'Bild'])} {i}{rng.choice(['', ' x', ' é'])}.{rng.choice(['png', 'jpg', 'svg'])}"
+        name = f"{rng.choice(['Pic', 'Map', 'Photo', 'Bild', 'A+B', 'R&D'])} {i}{rng.choice(['', ' x', ' é'])}.{rng.choice(['png', 'jpg', 'svg'])}"
         us, anon = users()
         images[name] = {"host": rng.choice(["local", "commons", "commons"]), "size": rng.choice([1, 100, 5000, 40000]),
                         "desc": f"== Summary ==\nDescription of {name} {{{{Information}}}} by [[User:{rng.choice(USERS)}]]\n"
@@ -563,7 +569,8 @@ def gen_spec(rng, size="small"):
         return " ".join(p for p in parts if p)
 
     n_a = rng.randint(1, 6 if size == "small" else 14)
-    anames = [f"{rng.choice(['Art', 'Über', 'Page'])} {i}" for i in range(n_a)]
+    # titles with characters that must be escaped in a query string
+    anames = [f"{rng.choice(['Art', 'Über', 'Page', 'Art', 'Page', 'C++', 'Q&A', 'A=b', '50%'])} {i}" for i in range(n_a)]
     for an in anames:
         revs = [[next_rev(), article_text()] for _ in range(rng.randint(1, 4))]
         us, anon = users()
@@ -585,6 +592,9 @@ def gen_spec(rng, size="small"):
         pages["Cycle A"] = {"revs": [[next_rev(), "#REDIRECT [[Cycle B]]"]], "users": [], "anon": 0}
         pages["Cycle B"] = {"revs": [[next_rev(), "#REDIRECT [[Cycle A]]"]], "users": [], "anon": 0}
         special.append("Cycle A")
+    if "Cycle A" in pages and rng.random() < 0.5:
+        pages["Into cycle"] = {"revs": [[next_rev(), "#REDIRECT [[Cycle B]]"]], "users": [], "anon": 0}
+        special.append("Into cycle")
     if rng.random() < 0.3:
         pages["Dead end"] = {"revs": [[next_rev(), "#REDIRECT [[Nowhere at all]]"]], "users": [], "anon": 0}
         special.append("Dead end")
@@ -648,4 +658,4 @@ def gen_spec(rng, size="small"):
     # a metabook carries its revision ids either all as integers or all as strings (JSON metabooks,
     # collection pages)
     return {"lang": lang, "pages": pages, "images": images, "metabook": mb, "revs_as_str": rng.random() < 0.3,
-            "farm": rng.random() < 0.3}
+            "farm": rng.random() < 0.3, "unresolvable": rng.choice(["link", "link", "empty"])}
